@@ -404,7 +404,11 @@ func (c *channel) processCommand(ctx context.Context, sender RequestCommandSende
 	defer func() {
 		verifPoint("process:before-cleanup")
 		c.processingCmdsMu.Lock()
-		delete(c.processingCmds, reqCmd.ID)
+		// Remove only the entry of this call: when the response was already matched, the
+		// id may be in use again by a newer request.
+		if c.processingCmds[reqCmd.ID] == respChan {
+			delete(c.processingCmds, reqCmd.ID)
+		}
 		c.processingCmdsMu.Unlock()
 	}()
 
@@ -426,19 +430,20 @@ func (c *channel) trySubmitCommandResult(respCmd *ResponseCommand) bool {
 		return false
 	}
 
-	c.processingCmdsMu.RLock()
+	// The lookup and the removal must be done in the same critical section, otherwise the entry
+	// of a newer request with the same id could be removed.
+	c.processingCmdsMu.Lock()
 	respChan, ok := c.processingCmds[respCmd.ID]
-	c.processingCmdsMu.RUnlock()
+	if ok {
+		delete(c.processingCmds, respCmd.ID)
+	}
+	c.processingCmdsMu.Unlock()
 
 	if !ok {
 		return false
 	}
 
 	verifPoint("submit:after-lookup")
-	c.processingCmdsMu.Lock()
-	delete(c.processingCmds, respCmd.ID)
-	c.processingCmdsMu.Unlock()
-
 	respChan <- respCmd
 	return true
 }
